@@ -322,7 +322,7 @@ def run(ck):
         k.setdefault("file", None)
         k.update(trad=False, origin="inside-known-class:" + k["rule"])
         specs.append(k)
-    specs.extend(gen_stream(ck, fs.scaled(ck.n(45, 700)), ck.n(7, 8), ck.n(1, 2)))
+    specs.extend(gen_stream(ck, fs.scaled(ck.n(40, 700)), ck.n(7, 8), ck.n(1, 2)))
 
     cases = []
     for i, s in enumerate(specs):
